@@ -113,6 +113,19 @@ struct Explorer {
             }
         };
         if (!walk(d.begin(), m.begin(), "begin")) return false;
+        // the same traversal with the post-increment form: it++ returns the old position and advances the iterator itself
+        {
+            auto it = d.begin(); auto mit = m.begin(); size_t steps = 0;
+            while (mit != m.end()) {
+                run.add(cn.iter_steps);
+                if (it == e) { run.violation(cs + " from=begin(post-increment)", "iteration with it++ reached end() before live key " + mc::key_str(mit->first)); return false; }
+                auto old = it++;
+                if (old == e || !(K(old->first) == mit->first) || val_index(old->second) != mit->second) { run.violation(cs + " from=begin(post-increment)", "it++ did not return the position it was at (expected key " + mc::key_str(mit->first) + ")"); return false; }
+                ++mit;
+                if (++steps > m.size() + 2) { run.violation(cs + " from=begin(post-increment)", "iteration with it++ does not terminate"); return false; }
+            }
+            if (it != e) { run.violation(cs + " from=begin(post-increment)", "iteration with it++ yields an element after the last live key"); return false; }
+        }
         for (K q : queries) if (!walk(d.lower_bound(q), m.lower_bound(q), mc::key_str(q))) return false;
         if (d.size() != m.size()) { run.violation(cs, "size() " + std::to_string(d.size()) + " != number of live keys " + std::to_string(m.size())); return false; }
         if (d.empty() != m.empty()) { run.violation(cs, "empty() disagrees with the ordered map"); return false; }
@@ -661,7 +674,7 @@ int main(int argc, char **argv) {
     ev.rule = "(a) breadth-first search over all histories of insert_or_assign(k,v)/erase(k), k from a key set of 4-7 colliding keys (adjacent keys, gaps, the extremes of the key type), v from 2 values, on the real DynamicPGMIndex copied per transition; "
               "initial states: empty, every bulk-load of 1..3 sorted pairs with repeated keys, bulk-loads of 9 and 12 pairs landing two levels below the buffer, and non-initial starts reached by a fixed prefix of 11/15/19 (base 2) or 6/12 (base 4, leaving a non-empty last level with room) round-robin inserts (so that the next merges cascade through three and four levels), plus round-structured search (one action out of {a,b,tombstone} per key for buffer_max_size+1 keys per round, so that every round flushes the buffer once; 2-7 rounds) which reaches merges into an existing deepest level where tombstones are dropped, plus size sweeps (bulk-load of 0..70 distinct keys followed by 40 inserts of fresh distinct keys, three placements) which hit every exact fit of a flush into the free room of a level; configurations (base,buffer_level,index_level) with a 3-entry buffer and 4/8/16-entry levels so that depth-" + std::to_string(thorough ? Dt : Dq) +
               " histories cascade through three levels and small levels own a PGM-index; key/value/index types arithmetic, pointer and std::string values. A state is a distinct canonical form (used_levels + per-level list of key/value-or-tombstone); after every transition the property's oracle runs against std::map" +
-              (prop == 5 ? " (find, count, lower_bound for every alphabet key and its neighbours)" : prop == 6 ? " (iteration from begin() and from every lower_bound to end(), range() for every lo<=hi of the query alphabet, size(), empty())" : " (sortedness, capacities, empty levels beyond used_levels, per-level index built over exactly the level's keys and answering the search contract, emptied levels' indexes reset)") +
+              (prop == 5 ? " (find, count, lower_bound for every alphabet key and its neighbours)" : prop == 6 ? " (iteration from begin() with ++it and with it++ and from every lower_bound to end(), range() for every lo<=hi of the query alphabet, size(), empty())" : " (sortedness, capacities, empty levels beyond used_levels, per-level index built over exactly the level's keys and answering the search contract, emptied levels' indexes reset)") +
               ". (b) large scripted family: bulk-load of 40..300 (thorough: up to 3000) irregularly spaced keys into a level that keeps room, then six scripts of erases of stored keys and inserts of fresh neighbours sized so that every flush merges into that level (size-preserving, interleaved, overwrite-then-erase; second round with the inverse operations), all oracles after every operation, also with a PGMIndex<.,1,4> (Epsilon < EpsilonRecursive) inside the levels. Non-trivial: the state holds data in a level below the buffer.";
     ev.bounds = "depth " + std::to_string(thorough ? Dt : Dq) + " from empty (4 keys), depth-1 (5 keys), depth-2 from small bulk-loads, deep starts depth " + std::to_string(thorough ? 7 : 5) + "; " + std::to_string(tasks.size()) + " (type,config,initial state) explorations";
     if (uint64_t nc = run.sh->counters[cn.capped_expl].load())
